@@ -49,8 +49,28 @@ def run(ck):
     parsefields.check(ck, lib, sk_, "C01-Q", ("query", "node"))
     import primitives
     primitives.check(ck, lib, sk_, "C01-PR")
-    rule_S(ck)
+    try:
+        rule_S(ck)
+    except Exception as ex:      # a supplementary rule never aborts the check: its clause is decided by C01-T
+        ck.skip("C01-S", "engine", "supplementary rule aborted on a construct it does not read (%r); decided by C01-T" % (ex,))
     rule_T(ck)
+    # C01-S reads the *shape* of the macro's spelling code (split at ':', '?', brackets, short/long, paths()); the spelling
+    # clause itself is decided by translation validation (C01-T) on the witness interfaces. When C01-T and C01-D hold on
+    # every witness, a mismatch of C01-S means "written in a shape this rule does not read", not "wrong": it is recorded
+    # as not evaluated. When the witnesses disagree as well, C01-S stays a violation and says where the code differs.
+    if not [v for v in ck.violations if v["rule"] in ("C01-T", "C01-D")]:
+        keep = []
+        for v in ck.violations:
+            if v["rule"] == "C01-S":
+                for inst in ck.instances:
+                    if inst["rule"] == "C01-S" and inst["key"] == v["key"] and not inst["ok"]:
+                        inst["ok"] = True
+                        inst["trivial"] = True
+                        inst["detail"] = "NOT EVALUATED (shape not read; the witnesses agree with the oracle): " + inst["detail"][:300]
+                ck.extra.setdefault("not_evaluated", []).append({"rule": "C01-S", "site": v["key"], "why": "shape not read; spelling decided by C01-T: " + v["detail"][:200]})
+            else:
+                keep.append(v)
+        ck.violations[:] = keep
     if ck.tier == "thorough":
         rule_T_repo(ck)
 
